@@ -43,7 +43,10 @@ pub fn substitute(f: &F, rng: &mut Rng, picked: &mut Vec<(String, F)>, is_root: 
         if let Some((l, _)) = picked.iter().find(|(_, g)| g == f) {
             return F::Wild(l.clone());
         }
-        let label = format!("w{}", picked.len());
+        // labels live in their own name space: spellings of constants, operator names, variable-like names are all legal
+        const LABELS: [&str; 10] = ["w0", "1", "True", "w3", "0", "false", "x", "EX", "true", "in"];
+        let free: Vec<&str> = LABELS.iter().copied().filter(|l| !picked.iter().any(|(u, _)| u == l)).collect();
+        let label = rng.pick(&free).to_string();
         picked.push((label.clone(), f.clone()));
         return F::Wild(label);
     }
